@@ -54,11 +54,7 @@ func (w *World) checkInterp(m *scoreModel, add func(ok bool, rule, inst string, 
 		add(true, "R04.range", "Score.interp", fd, "not decided in this run: severity rows, highest-severity vectors or depths were not recognised (reported by R04.sev / R04.max / R04.depth)")
 		return
 	}
-	type tuple struct {
-		vals map[string]string
-		sum  int
-	}
-	levelsOf := map[string]map[string][]tuple{} // EQ -> level -> tuples
+	levelsOf := map[string]map[string][]v4tuple{} // EQ -> level -> tuples
 	undecided := false
 	for _, K := range []string{"1", "2", "36", "4"} {
 		ms := eqMetrics[K]
@@ -73,7 +69,7 @@ func (w *World) checkInterp(m *scoreModel, add func(ok bool, rule, inst string, 
 		if undecided {
 			break
 		}
-		levelsOf[K] = map[string][]tuple{}
+		levelsOf[K] = map[string][]v4tuple{}
 		cur := make([]int, len(ms))
 		var rec func(i int)
 		rec = func(i int) {
@@ -98,7 +94,7 @@ func (w *World) checkInterp(m *scoreModel, add func(ok bool, rule, inst string, 
 				default:
 					lvl = fmt.Sprint(eqOracle[int(K[0]-'0')](ev))
 				}
-				levelsOf[K][lvl] = append(levelsOf[K][lvl], tuple{vals, sum})
+				levelsOf[K][lvl] = append(levelsOf[K][lvl], v4tuple{vals, sum})
 				return
 			}
 			for c := range doms[i] {
@@ -209,6 +205,7 @@ func (w *World) checkInterp(m *scoreModel, add func(ok bool, rule, inst string, 
 	sort.Strings(keys)
 	total, ties, negDist := 0, 0, 0
 	classVals := map[string]*big.Rat{} // distinct exact pre-rounding values
+	classOf := map[string]*big.Rat{}   // "key|d1|d2|d36|d4" -> exact pre-rounding value
 	var minV, maxV *big.Rat
 	var minEx, maxEx, tieEx string
 	minGap := big.NewRat(1, 1) // distance of 10*value to the nearest half-integer, over non-ties
@@ -256,6 +253,7 @@ func (w *World) checkInterp(m *scoreModel, add func(ok bool, rule, inst string, 
 							maxV, maxEx = v, desc
 						}
 						classVals[v.RatString()] = v
+						classOf[fmt.Sprintf("%s|%d|%d|%d|%d", key, d1, d2, d36, d4)] = v
 						x10 := new(big.Rat).Mul(v, ten)
 						fr := new(big.Rat).Sub(x10, ratFloor(x10))
 						gap := new(big.Rat).Sub(fr, half)
@@ -276,6 +274,7 @@ func (w *World) checkInterp(m *scoreModel, add func(ok bool, rule, inst string, 
 	if total == 0 {
 		return
 	}
+	w.checkV4Mono(m, levelsOf, levelSum, classOf, add)
 	okRange := minV.Sign() >= 0 && maxV.Cmp(ten) <= 0 && negDist == 0
 	add(okRange, "R04.range", "Score.interp", fd, fmt.Sprintf("%d (MacroVector, achievable distance tuple) classes tabulated exactly: pre-rounding score in [%s, %s] (min at %s; max at %s); negative distances: %d", total, minV.FloatString(4), maxV.FloatString(4), minEx, maxEx, negDist))
 	// R04.round: the rounding helper, evaluated under the float64 error model on
@@ -399,4 +398,215 @@ func monotoneTree(t *Ex) bool {
 		}
 	}
 	return false
+}
+
+type v4tuple struct {
+	vals map[string]string
+	sum  int
+}
+
+// checkV4Mono (R12.v4real): with distance = rank-sum(vector) − rank-sum(level)
+// (R04.ranksum/R04.cover) the v4 score is a function of, per EQ, the level and
+// the distance (plus "all impacts None" for the 0.0 shortcut). Every
+// single-metric step to the next more severe value is examined for every
+// combination of the other EQs: the half-up rounded exact score must not
+// decrease. Exact rationals throughout (real arithmetic; the float64 side is
+// R04.round).
+func (w *World) checkV4Mono(m *scoreModel, levelsOf map[string]map[string][]v4tuple, levelSum map[string]map[string]int, classOf map[string]*big.Rat, add func(ok bool, rule, inst string, n ast.Node, detail string)) {
+	if w.Wants != nil && !w.Wants("R12.v4real") {
+		return
+	}
+	fd := m.fd
+	type desc struct {
+		level string
+		dist  int
+		allN  bool
+	}
+	type step struct {
+		from, to desc
+		what     string
+	}
+	groups := []string{"1", "2", "36", "4"}
+	descs := map[string][]desc{}
+	steps := map[string][]step{}
+	impact := map[string]bool{"VC": true, "VI": true, "VA": true, "SC": true, "SI": true, "SA": true}
+	for _, K := range groups {
+		index := map[string]desc{}
+		keyOf := func(vals map[string]string) string {
+			var parts []string
+			for _, mm := range eqMetrics[K] {
+				parts = append(parts, vals[mm])
+			}
+			return strings.Join(parts, "/")
+		}
+		seen := map[desc]bool{}
+		for lvl, ts := range levelsOf[K] {
+			for _, t := range ts {
+				allN := true
+				for mm, v := range t.vals {
+					if impact[mm] && v != "N" {
+						allN = false
+					}
+				}
+				if K != "36" && K != "4" {
+					allN = false
+				}
+				d := desc{lvl, t.sum - levelSum[K][lvl], allN}
+				index[keyOf(t.vals)] = d
+				if !seen[d] {
+					seen[d] = true
+					descs[K] = append(descs[K], d)
+				}
+			}
+		}
+		for _, ts := range levelsOf[K] {
+			for _, t := range ts {
+				for _, mm := range eqMetrics[K] {
+					r := m.rank[mm][t.vals[mm]]
+					if r == 0 {
+						continue
+					}
+					// next more severe value: rank r-1 in the code's severity row
+					next := ""
+					for v, rr := range m.rank[mm] {
+						if rr == r-1 {
+							next = v
+						}
+					}
+					if next == "" {
+						continue
+					}
+					nv := map[string]string{}
+					for a, b := range t.vals {
+						nv[a] = b
+					}
+					nv[mm] = next
+					to, ok := index[keyOf(nv)]
+					if !ok {
+						continue
+					}
+					steps[K] = append(steps[K], step{index[keyOf(t.vals)], to, fmt.Sprintf("%s with %s:%s->%s", keyOf(t.vals), mm, t.vals[mm], next)})
+				}
+			}
+		}
+	}
+	ten := big.NewRat(10, 1)
+	half := big.NewRat(1, 2)
+	score := func(d map[string]desc, e int) (*big.Rat, bool) {
+		if d["36"].allN && d["4"].allN {
+			return new(big.Rat), true
+		}
+		key := d["1"].level + d["2"].level + d["36"].level[0:1] + d["4"].level + fmt.Sprint(e) + d["36"].level[1:2]
+		v, ok := classOf[fmt.Sprintf("%s|%d|%d|%d|%d", key, d["1"].dist, d["2"].dist, d["36"].dist, d["4"].dist)]
+		if !ok {
+			return nil, false
+		}
+		x := new(big.Rat).Mul(v, ten)
+		return new(big.Rat).Quo(ratFloor(x.Add(x, half)), ten), true
+	}
+	// dense table of rounded scores (in tenths; -1 = no class) over descriptor indexes
+	n1, n2, n36, n4 := len(descs["1"]), len(descs["2"]), len(descs["36"]), len(descs["4"])
+	tab := make([]int32, n1*n2*n36*n4*3)
+	at := func(i1, i2, i36, i4, e int) int { return (((i1*n2+i2)*n36+i36)*n4+i4)*3 + e }
+	for i1, a := range descs["1"] {
+		for i2, b := range descs["2"] {
+			for i36, c := range descs["36"] {
+				for i4, d4 := range descs["4"] {
+					for e := 0; e < 3; e++ {
+						s, ok := score(map[string]desc{"1": a, "2": b, "36": c, "4": d4}, e)
+						if !ok {
+							tab[at(i1, i2, i36, i4, e)] = -1
+							continue
+						}
+						x := new(big.Rat).Mul(s, ten)
+						tab[at(i1, i2, i36, i4, e)] = int32(x.Num().Int64())
+					}
+				}
+			}
+		}
+	}
+	idxOf := map[string]map[desc]int{}
+	for _, K := range groups {
+		idxOf[K] = map[desc]int{}
+		for i, d := range descs[K] {
+			idxOf[K][d] = i
+		}
+	}
+	nSteps, bad, missing := 0, 0, 0
+	first := ""
+	dims := map[string]int{"1": n1, "2": n2, "36": n36, "4": n4}
+	for _, K := range groups {
+		for _, st := range steps[K] {
+			fi, ti := idxOf[K][st.from], idxOf[K][st.to]
+			var ix [4]int // indexes for groups in order 1,2,36,4
+			var rec func(g int)
+			rec = func(g int) {
+				if g == 4 {
+					for e := 0; e < 3; e++ {
+						from, to := ix, ix
+						for gi, G := range groups {
+							if G == K {
+								from[gi], to[gi] = fi, ti
+							}
+						}
+						s1 := tab[at(from[0], from[1], from[2], from[3], e)]
+						s2 := tab[at(to[0], to[1], to[2], to[3], e)]
+						if s1 < 0 || s2 < 0 {
+							missing++
+							continue
+						}
+						nSteps++
+						if s2 < s1 {
+							bad++
+							if first == "" {
+								first = fmt.Sprintf("EQ%s %s (other EQs at descriptor indexes %v, EQ5 level %d): %.1f -> %.1f", K, st.what, ix, e, float64(s1)/10, float64(s2)/10)
+							}
+						}
+					}
+					return
+				}
+				if groups[g] == K {
+					rec(g + 1)
+					return
+				}
+				for i := 0; i < dims[groups[g]]; i++ {
+					ix[g] = i
+					rec(g + 1)
+				}
+			}
+			rec(0)
+		}
+	}
+	// E steps: eq5 level e -> e-1 (U -> P -> A) with everything else fixed
+	for i1 := 0; i1 < n1; i1++ {
+		for i2 := 0; i2 < n2; i2++ {
+			for i36 := 0; i36 < n36; i36++ {
+				for i4 := 0; i4 < n4; i4++ {
+					for e := 2; e >= 1; e-- {
+						s1, s2 := tab[at(i1, i2, i36, i4, e)], tab[at(i1, i2, i36, i4, e-1)]
+						if s1 < 0 || s2 < 0 {
+							missing++
+							continue
+						}
+						nSteps++
+						if s2 < s1 {
+							bad++
+							if first == "" {
+								first = fmt.Sprintf("E from level %d to %d (descriptor indexes %d %d %d %d): %.1f -> %.1f", e, e-1, i1, i2, i36, i4, float64(s1)/10, float64(s2)/10)
+							}
+						}
+					}
+				}
+			}
+		}
+	}
+	switch {
+	case missing > 0:
+		add(true, "R12.v4real", "Score.monotone", fd, fmt.Sprintf("not decided in this run: %d (level, distance) combinations have no tabulated class", missing))
+	case bad == 0:
+		add(true, "R12.v4real", "Score.monotone", fd, fmt.Sprintf("%d single-metric severity steps (every value combination of the stepped EQ x every (level, distance) class of the other EQs x E) examined on the exact half-up rounded score: none lowers it", nSteps))
+	default:
+		add(false, "R12.v4real", "Score.monotone", fd, fmt.Sprintf("%d of %d single-metric severity steps lower the exact score, e.g. %s", bad, nSteps, first))
+	}
+	w.Extra["v4_monotone_steps"] = nSteps
 }
